@@ -92,3 +92,19 @@ CLAIMS["C04"] = {
             "Totality is approximated by absence of failures on ~1.2e4 (quick) / 6e5 (thorough) hostile programs; the evidence lists the diagnostic kinds and outcomes actually observed.",
     "note": "Bounded progress only (20 s / 60 s CPU). Nesting depth of generated input is small, so a stack overflow can only come from unbounded recursion. Native build stands for wasm (A1); module loading through the cjs-style assembly, ESM import for a sample.",
 }
+
+# ------------------------------------------------------------------------------------------ C10
+SPEC["C10"] = {
+    "engine": "node",
+    "rule": "cases = projects (supported programs with many same-shaped declarations and multi-key discriminated unions, typeof of namespace imports with failing exports, multi-file projects, "
+            "wild programs, corpus mutations); each is compiled in k fresh OS processes (beffc --once: fresh std RandomState) under lazy / sorted / reversed / shuffled file registration, and twice in "
+            "the long-lived server; evaluations = compilations compared. distinct_nontrivial = distinct (stream, outcome, #files, output prefix) project kinds",
+    "floor": {"quick": 1000, "thorough": 50000},
+    "assumptions": ["a nondeterminism that shows with probability p per process is missed with probability (1-p)^k, k = 8 (quick) / 14 (thorough) runs per project"],
+}
+CLAIMS["C10"] = {
+    "technique": "differential runtime monitor across OS processes and file-registration orders: sha256 of emit_code() bytes and of the serialised diagnostics must coincide",
+    "text": "Each project is compiled 8 (quick) / 14 (thorough) times: in fresh OS processes (new hash seeds) with lazy, sorted, reversed and shuffled eager file registration, and in the long-lived compile server after unrelated work. "
+            "Any two different outputs (code bytes, diagnostics, outcome) is a violation. A per-process nondeterminism with probability p is missed with probability (1-p)^k.",
+    "note": "Only nondeterminism that manifests on the generated projects within k runs is seen; the workload is aimed at the places where hash-map iteration could reach the output (namespace typeof, hoist numbering, discriminator choice).",
+}
